@@ -71,10 +71,13 @@ CLAIMED["C06"] = dict(cat="proof", ref="DESIGN.md §5 C06, §12",
    note=CONT_NOTE + "; what a corrupted *payload* does is outside the property", tech="Lean 4 proof by induction over a ghost block list + exhaustive cut enumeration against the implementation")
 CLAIMED["C07"] = dict(cat="proof", ref="DESIGN.md §5 C07, §12",
    text="Lean theorems c07_history (invariant over every finite history of write / failed write / flush / block copy), c07_flush_reads_back, "
-        "c07_failed_write_contributes_nothing, c07_header_never_changes. Implementation: random histories incl. failing writes at every field, "
+        "c07_failed_write_contributes_nothing, c07_header_never_changes, c07_reopen_resumes (re-opening a stream that begins with this file's header yields the same "
+        "sync marker and codec whatever arguments are passed), c07_reopen_is_flush (closing a writer and opening a new one for append = a flush: a history with re-opens "
+        "is a history of one writer), c07_appendable_table + translator obligation Tables.appendable_table (_is_appendable tabulated over its decision domain by "
+        "running it on probe streams). Implementation: random histories incl. failing writes at every field, "
         "write_block from donor files of every codec, reopen-for-append with arbitrary arguments; after every flush the stream is read back and the "
         "header compared; final stream compared with the model's prediction.",
-   note=CONT_NOTE + "; reopen-for-append is modelled as resuming from the same stream (arguments ignored) and tied by correspondence only; two live writers on one stream not covered",
+   note=CONT_NOTE + "; the header re-read at re-open is proved for headers this writer produced (metadata sizes below the varint model's limit); two live writers on one stream not covered",
    tech="Lean 4 invariant proof over operation histories + history correspondence")
 CLAIMED["C10"] = dict(cat="proof", ref="DESIGN.md §5 C10, §12",
    text="Lean theorems c10_validate_eq_conforms (validate(raise_errors=False) = Spec.conforms, the documented mapping, for every plain schema, datum, "
@@ -153,16 +156,22 @@ CLAIMED["C15"] = dict(cat="proof", ref="DESIGN.md §5 C15, §11, §12, §13",
         "AvroJSONEncoder state modelled step by step (Model/JsonMachine.lean: grammar built from the schema incl. the recursion guard, symbol stack, lazily executed "
         "actions, root symbol, frame stack, stale keys, flush): c15_machine_value / c15_machine_json_writer / c15_machine_emits_spec — the machine writes exactly the "
         "function-level (= specification) encoding for every schema without empty records and forced-null productions, any nesting depth, any non-empty record list; "
-        "kernel-checked counterexamples (c15_machine_counterexample_*) show the machine derails outside those hypotheses (findings F33, F5b, F5a). "
+        "kernel-checked counterexamples (c15_machine_counterexample_*) show the machine derails outside those hypotheses (findings F33, F5b, F5a, F28). "
+        "READ side of the machine (AvroJSONDecoder driven by read_data: frame stack, _current, _key, _push_and_adjust, read_index re-binding the union member, "
+        "iter_array / iter_map, lazily executed actions, drain_actions between documents; Proofs/JsonMachineDec.lean): c15_machine_json_reader (the machine returns "
+        "what the function-level reader returns, any depth, any number of documents, for schemas whose map values leave no pop pending — DOk — and documents of the "
+        "writer's shape — Fits, proved of every specification encoding by spec_fits), c15_machine_reads_spec (so the specification's encodings are read back as the "
+        "records as written) and c15_machine_round_trip (json_writer then json_reader on the machine = the records as written). "
         "The driver evaluates Spec.written and the machine model on every harness case; implementation = machine model is compared on record lists (also on the "
         "derailing shapes and on texts with keys removed), and a failure is attributed to a recorded finding only when the machine model reproduces it. The "
         "agreement-with-binary and absent-field-default clauses are checked on the implementation (JSON text compared by value with Spec.jsonEncode under the documented "
         "branch rule, read back, compared with the binary round trip, fields deleted from the text take the specification's reading of their default, defaults family "
         "over every field kind, write_union_type on/off, empty record list).",
-   note="the READ side of the machine (AvroJSONDecoder driven by read_data) is modelled (JM.decodeAll) and tied by correspondence only; open findings F5a-d, F27, F28, F33 (grammar "
+   note="the read-side theorems exclude maps whose values are records (one level works in implementation and model, two levels fail: F28) and documents with absent fields "
+        "(defaults: harness, spec_default oracle); the model's loops carry an iteration bound of 1,000,000 (hypothesis Small); open findings F5a-d, F27, F28, F33 (grammar "
         "machine), F14 (numbers not rounded to the type's precision); F30-F32 (defaults consumed / dropped) found by the machine model and fixed in /repo; "
         "model==implementation observed by correspondence",
-   tech="Lean 4 proof (function-level encoder = specification encoder; push-down machine = function-level encoder; reader traversal inverts it) + machine model and specification encoder run against the implementation")
+   tech="Lean 4 proof (function-level encoder = specification encoder; push-down machine writer = function-level encoder; function-level reader inverts it; push-down machine reader = function-level reader) + machine model and specification encoder run against the implementation")
 CLAIMED["C17"] = dict(cat="proof", ref="DESIGN.md §5 C17, §12",
    text="Lean: c17_history_independent (generic theorem: for every semantics of the calls that respects the footprints of the effect table, the result of any call after "
         "any history equals its result in the initial store), with the table obligations c17_table_safe (whatever an entry point may read before writing it is written "
@@ -196,10 +205,13 @@ CLAIMED["C19"] = dict(cat="proof", ref="DESIGN.md §5 C19, §12",
 CLAIMED["C20"] = dict(cat="proof", ref="DESIGN.md §5 C20, §12",
    text="Lean theorems c20_generated_conforms (for EVERY oracle standing for the library's random source — randint returns some integer of its range, random() some "
         "float, getrandbits some bytes — a datum gen_data returns conforms to the schema by Spec.conforms, the relation validate implements (C10) and the writers accept "
-        "(C01/C02); any depth, through by-name references; plain schemas whose records have distinct field names) and c20_exact_count (generate_many yields exactly n "
-        "values). Implementation: schemas of the generator incl. logical types and recursive types, n in {0,1,3}, several random seeds: count, validate, schemaless and "
+        "(C01/C02); any depth, through by-name references; plain schemas whose records have distinct field names) , c20_exact_count (generate_many yields exactly n "
+        "values), c20_terminates_tree (on a schema without by-name references gen_data returns, whatever the oracle does: a budget of the schema's depth suffices) and "
+        "c20_nontermination_counterexample (F6 as a theorem: Node{children: array<Node>} is never generated, for every oracle and every budget). Translator obligation "
+        "Tables.generate_ranges: the integer ranges gen_data draws from, tabulated by RUNNING it with a recording random source on int/long x every logical annotation. "
+        "Implementation: schemas of the generator incl. logical types and recursive types, n in {0,1,3}, several random seeds: count, validate, schemaless and "
         "container write + read back; every generated value must lie in the image of the model generator (Generate.inImage) and conform by Spec.conforms.",
-   note="termination is not claimed: known finding F6 (self-reference through an array or map never returns); logical types are checked on the implementation only; "
+   note="termination is proved for tree schemas only; beyond them known finding F6 (self-reference through an array or map never returns); logical types are checked on the implementation only; "
         "model==implementation observed through the image check (the random streams themselves cannot be aligned)",
    tech="Lean 4 proof over an arbitrary random oracle + image/conformance check of the implementation's values")
 PENDING = {}
